@@ -489,4 +489,503 @@ theorem apply_inv {e : Env} {s s' : St} {a : Auc} {who : Nat} {p : Plan} {auto :
                 · simp only [hau, if_true] at p1 ⊢; omega
                 · simp only [hau, if_false, Bool.false_eq_true] at p1 ⊢; omega
             · intro hn; simp at hn
+/-! ### every operation keeps the invariant -/
+
+/-- configuration assumptions: positive decimals, premium ≥ 0, 0 ≤ discount ≤ 1, window ≥ 0 -/
+structure WfEnv (e : Env) : Prop where
+  decC_pos : 0 < e.decC
+  decD_pos : 0 < e.decD
+  premium_nonneg : (0 : Int) ≤ e.premium
+  discount_nonneg : (0 : Int) ≤ e.discount
+  discount_le_one : (e.discount : Int) ≤ P
+  T_nonneg : 0 ≤ e.T
+
+theorem debtPrice_nonneg (e : Env) (dt : Int) (h : 0 ≤ dt) : (0 : Int) ≤ debtPrice e dt := by
+  unfold debtPrice Dec.ofInt
+  have hP : (0 : Int) ≤ P := by simp [P]
+  split
+  · simp [P]
+  · exact Int.mul_nonneg h hP
+
+theorem placeBid_inv {e : Env} {s s' : St} {a : Auc} {who : Nat} {amt dt : Int} {auto : Bool}
+    (hw : WfEnv e) (hi : Inv e s) (ha : s.auc = some a) (hdt : 0 ≤ dt)
+    (h : placeBid e s a who amt dt auto = .ok s') : Inv e s' := by
+  unfold placeBid at h
+  split at h
+  · rename_i p hp
+    obtain ⟨_, _, _, _, o5, o6, _⟩ := hi.open_ a ha
+    exact apply_inv hi ha (plan_ok hp o5 (debtPrice_nonneg e dt hdt) hw.decD_pos o6 hw.decC_pos) h
+  · cases h
+
+theorem mul_le_top (top disc : Int) (ht : 0 ≤ top) (hd : disc ≤ P) : @LE.le Int _ (Dec.mul top disc) top := by
+  unfold Dec.mul
+  have : top * disc ≤ top * P := Int.mul_le_mul_of_nonneg_left hd ht
+  have := chopRound_mono _ _ this
+  rwa [chopRound_exact] at this
+
+theorem mul_nonneg' (top disc : Int) (ht : 0 ≤ top) (hd : 0 ≤ disc) : @LE.le Int _ 0 (Dec.mul top disc) := by
+  unfold Dec.mul; exact chopRound_nonneg _ (Int.mul_nonneg ht hd)
+
+theorem priceV2_den {top disc : Dec} {T dur : Int} {p : Dec} (h : priceV2 top disc T dur = .ok p) :
+    Dec.sub top (Dec.mul top disc) ≠ 0 := by
+  unfold priceV2 at h
+  simp only [bind, Except.bind] at h
+  split at h
+  · cases h
+  · rename_i en he
+    have : en = Dec.mul top disc := by unfold endPrice at he; exact chk_ok he
+    subst this
+    split at h
+    · cases h
+    · rename_i t ht
+      exact (tau_ok ht).2
+
+theorem startPrice_ok {twa : Int} {premium p : Dec} (h : startPrice twa premium = .ok p) : p = premium * twa := by
+  unfold startPrice at h
+  split at h
+  · rw [chk_ok h, mul_ofInt]
+  · cases h
+
+/-- `iterate` touches only price and time fields and keeps the posted price ≥ 0 -/
+theorem iterate_ok {e : Env} {a a' : Auc} {now twaC twaD : Int} {actC actD : Bool}
+    (hw : WfEnv e) (h : iterate e a now twaC actC twaD actD = .ok a') (htw : 0 ≤ twaC)
+    (hinit : (0 : Int) ≤ a.init) (hend : a.end_ = a.start + e.T) :
+    a'.coll = a.coll ∧ a'.debt = a.debt ∧ a'.bonus = a.bonus ∧ (0 : Int) ≤ a'.price ∧ (0 : Int) ≤ a'.init ∧
+    a'.end_ = a'.start + e.T := by
+  unfold iterate at h
+  simp only [bind, Except.bind, pure, Except.pure] at h
+  split at h
+  · cases h
+  · split at h
+    · -- restart
+      split at h
+      · cases h
+      · rename_i p0 hp0
+        cases h
+        have := startPrice_ok hp0
+        have hp : (0 : Int) ≤ p0 := by rw [this]; exact Int.mul_nonneg hw.premium_nonneg htw
+        exact ⟨rfl, rfl, rfl, hp, hp, rfl⟩
+    · rename_i hnow
+      split at h
+      · cases h
+      · rename_i p hp
+        cases h
+        obtain ⟨ep, htau⟩ := priceV2_ok hp
+        have hden := priceV2_den hp
+        have he0 := mul_nonneg' a.init e.discount hinit hw.discount_nonneg
+        have hle := mul_le_top a.init e.discount hinit hw.discount_le_one
+        have hD : (0 : Int) < (a.init : Int) - (Dec.mul a.init e.discount : Int) := by
+          have hne : (Dec.mul a.init e.discount : Int) ≠ a.init := by
+            intro heq; apply hden
+            show (a.init : Int) - Dec.mul a.init e.discount = 0
+            rw [heq]; exact Int.sub_self _
+          exact Int.sub_pos.mpr (lt_of_le_of_ne hle hne)
+        have hT := tauVal_ge_T a.init (Dec.mul a.init e.discount) e.T he0 hD hw.T_nonneg
+        have hpos : 0 < tauVal a.init (Dec.mul a.init e.discount) e.T := by have := hw.T_nonneg; omega
+        have hp0 : (0 : Int) ≤ p := by
+          rw [ep]; exact linearVal_nonneg _ _ _ hinit hpos (by omega)
+        exact ⟨rfl, rfl, rfl, hp0, hinit, hend⟩
+
+theorem tickIter_inv {e : Env} {s : St} {now twaC twaD : Int} {actC actD : Bool}
+    (hw : WfEnv e) (hi : Inv e s) (htw : 0 ≤ twaC) : Inv e (tickIter e s now twaC actC twaD actD) := by
+  unfold tickIter
+  split
+  · exact hi
+  · rename_i a ha
+    split
+    · rename_i a' ha'
+      obtain ⟨o1, o2, o3, o4, o5, o6, o7, o8, o9, o10⟩ := hi.open_ a ha
+      obtain ⟨i1, i2, i3, i4, i5, i6⟩ := iterate_ok hw ha' htw o7 o8
+      refine ⟨hi.paid_nonneg, hi.recv_nonneg, ?_, ?_⟩
+      · intro a'' h''
+        simp only [Option.some.injEq] at h''
+        subst h''
+        simp only
+        rw [i1, i2, i3]
+        exact ⟨o1, o2, o3, o4, o5, i4, i5, i6, o9, o10⟩
+      · intro hn; simp at hn
+    · exact hi
+
+/-- at most one limit bid in any premium bucket -/
+def NoSharedPremium (lbids : List LBid) : Prop := ∀ k : Int, (lbids.filter (fun l => l.1 = k)).length ≤ 1
+
+theorem fillLoop_inv {e : Env} {s s' : St} {a : Auc} {dt : Int} {l : List LBid}
+    (hw : WfEnv e) (hi : Inv e s) (ha : s.auc = some a) (hdt : 0 ≤ dt) (hl : l.length ≤ 1)
+    (h : fillLoop e a dt s l = .ok s') : Inv e s' := by
+  match l, hl with
+  | [], _ => unfold fillLoop at h; cases h; exact hi
+  | [(_, who, amt)], _ =>
+    unfold fillLoop at h
+    simp only [bind, Except.bind] at h
+    split at h
+    · cases h
+    · rename_i s1 hs1
+      have h1 := placeBid_inv hw hi ha hdt hs1
+      split at h
+      · cases h; exact h1
+      · unfold fillLoop at h; cases h; exact h1
+
+theorem fill_inv {e : Env} {s s' : St} {dt : Int} {lbids : List LBid}
+    (hw : WfEnv e) (hi : Inv e s) (hdt : 0 ≤ dt) (hl : NoSharedPremium lbids)
+    (h : fill e s dt lbids = .ok s') : Inv e s' := by
+  unfold fill at h
+  split at h
+  · cases h; exact hi
+  · rename_i a ha
+    simp only [bind, Except.bind] at h
+    split at h
+    · cases h
+    · rename_i ob hb
+      split at h
+      · cases h; exact hi
+      · rename_i k
+        exact fillLoop_inv hw hi ha hdt (hl k) h
+
+/-- well-formed operation: oracle values are unsigned, at most one limit bid per premium bucket -/
+def WfOp : Op → Prop
+  | .bid _ _ dt => 0 ≤ dt
+  | .tick _ twaC _ twaD _ lbids => 0 ≤ twaC ∧ 0 ≤ twaD ∧ NoSharedPremium lbids
+  | .reserve _ _ => True
+  | .limit _ _ _ => True
+
+theorem step_inv {e : Env} {s : St} {op : Op} (hw : WfEnv e) (hi : Inv e s) (hop : WfOp op) : Inv e (step e s op) := by
+  cases op with
+  | bid who amt dt =>
+    simp only [step, orElse]
+    split
+    · rename_i s' hs'
+      unfold bidE at hs'
+      split at hs'
+      · cases hs'
+      · split at hs'
+        · cases hs'
+        · rename_i a ha
+          exact placeBid_inv hw hi ha hop hs'
+    · exact hi
+  | tick now twaC actC twaD actD lbids =>
+    obtain ⟨h1, h2, h3⟩ := hop
+    simp only [step, orElse]
+    have hi1 := tickIter_inv (now := now) (twaD := twaD) (actC := actC) (actD := actD) hw hi h1
+    split
+    · rename_i s' hs'
+      exact fill_inv hw hi1 h2 h3 hs'
+    · exact hi1
+  | reserve who amt =>
+    simp only [step]
+    split
+    · exact hi
+    · split
+      · rename_i b hb
+        obtain ⟨_, _, d⟩ := send_ok hb (by simp)
+        refine ⟨hi.paid_nonneg, hi.recv_nonneg, ?_, ?_⟩
+        · intro a ha
+          have := hi.open_ a ha
+          simp only at ha ⊢
+          rw [d, d]; simpa using this
+        · intro hn
+          have := hi.closed hn
+          simp only at hn ⊢
+          rw [d, d]; simpa using this
+      · exact hi
+  | limit who prem amt =>
+    simp only [step]
+    split
+    · exact hi
+    · rename_i hg
+      split
+      · rename_i b hb
+        obtain ⟨_, _, d⟩ := send_ok hb (by simp)
+        refine ⟨hi.paid_nonneg, hi.recv_nonneg, ?_, ?_⟩
+        · intro a ha
+          obtain ⟨o1, o2, o3, o4, o5, o6, o7, o8, o9, o10⟩ := hi.open_ a ha
+          simp only at ha ⊢
+          rw [d, d]
+          refine ⟨o1, o2, o3, o4, o5, o6, o7, o8, ?_, ?_⟩
+          · simpa using o9
+          · simp; omega
+        · intro hn
+          obtain ⟨c1, c2, c3, c4⟩ := hi.closed hn
+          simp only at hn ⊢
+          rw [d, d]
+          refine ⟨c1, c2, ?_, ?_⟩
+          · simpa using c3
+          · simp; omega
+      · exact hi
+
+theorem run_inv {e : Env} (hw : WfEnv e) (ops : List Op) (s : St) (hi : Inv e s) (hops : ∀ op ∈ ops, WfOp op) :
+    Inv e (run e s ops) := by
+  induction ops generalizing s with
+  | nil => exact hi
+  | cons op ops ih =>
+    simp only [run, List.foldl_cons]
+    exact ih _ (step_inv hw hi (hops op (by simp))) (fun o ho => hops o (by simp [ho]))
+
+/-- what one accepted bid moves, account by account -/
+theorem apply_moves {e : Env} {s s' : St} {a : Auc} {who : Nat} {p : Plan} {auto : Bool}
+    (hp : PlanOK a p) (h : apply e s a who p auto = .ok s') :
+    s'.paid = s.paid + p.pay ∧ s'.recv = s.recv + p.total ∧
+    s'.bank.get (.bidder who) .coll = s.bank.get (.bidder who) .coll + p.total ∧
+    s'.bank.get (.bidder who) .debt = s.bank.get (.bidder who) .debt - (if auto then 0 else p.pay) ∧
+    (∀ n, n ≠ who → s'.bank.get (.bidder n) .coll = s.bank.get (.bidder n) .coll ∧
+                    s'.bank.get (.bidder n) .debt = s.bank.get (.bidder n) .debt) ∧
+    (p.close = true →
+        s'.auc = none ∧
+        s'.bank.get .owner .coll = s.bank.get .owner .coll + (a.coll - p.total) ∧
+        (s'.burned - s.burned) + (s'.bank.get .collector .debt - s.bank.get .collector .debt)
+          + (s'.bank.get .keeper .debt - s.bank.get .keeper .debt)
+          + (s'.bank.get .initiator .debt - s.bank.get .initiator .debt)
+          + (s'.bank.get .pool .debt - s.bank.get .pool .debt) + (s'.booked - s.booked) = e.target) ∧
+    (p.close = false → s'.auc = some { a with coll := a.coll - p.total, debt := a.debt - p.pay, bonus := a.bonus - p.share }) := by
+  unfold apply at h
+  split at h
+  · cases h
+  · split at h
+    · cases h
+    · rename_i s1 hs1
+      -- the reserve draw touches only the reserve and module accounts
+      have w : s1.paid = s.paid ∧ s1.recv = s.recv ∧ s1.burned = s.burned ∧ s1.booked = s.booked ∧
+          (∀ a' d', a' ≠ Acct.auction → a' ≠ Acct.reserve → s1.bank.get a' d' = s.bank.get a' d') := by
+        by_cases hc : p.clipped = true
+        · simp only [hc, if_true] at hs1
+          unfold withdrawReserve at hs1
+          split at hs1
+          · cases hs1
+          · split at hs1
+            · split at hs1
+              · rename_i b hb
+                cases hs1
+                have d := sendPos_ok hb (by decide)
+                refine ⟨rfl, rfl, rfl, rfl, ?_⟩
+                intro a' d' h1 h2
+                simp only; rw [d]; simp [h1, h2]
+              · cases hs1
+            · cases hs1
+              exact ⟨rfl, rfl, rfl, rfl, fun _ _ _ _ => rfl⟩
+        · simp only [hc, if_false, Bool.false_eq_true] at hs1
+          cases hs1
+          exact ⟨rfl, rfl, rfl, rfl, fun _ _ _ _ => rfl⟩
+      obtain ⟨w1, w2, w3, w4, w5⟩ := w
+      split at h
+      · cases h
+      · rename_i b1 hb1
+        have p1 : ∀ a' d', b1.get a' d' = s1.bank.get a' d'
+            + (if a' = Acct.auction ∧ d' = Denom.debt then (if auto then 0 else p.pay) else 0)
+            - (if a' = Acct.bidder who ∧ d' = Denom.debt then (if auto then 0 else p.pay) else 0) := by
+          intro a' d'
+          by_cases hau : auto = true
+          · simp only [hau, if_true] at hb1 ⊢
+            cases hb1; split_ifs <;> omega
+          · simp only [hau, if_false, Bool.false_eq_true] at hb1 ⊢
+            have d := sendPos_ok hb1 (by simp)
+            rw [d]; simp [posPart_of_nonneg hp.pay_nonneg]
+        split at h
+        · cases h
+        · rename_i b2 hb2
+          have d2 := sendPos_ok hb2 (by simp)
+          rw [posPart_of_nonneg hp.total_nonneg] at d2
+          by_cases hcl : p.close = true
+          · simp only [hcl, if_true] at h
+            split at h
+            · cases h
+            · rename_i s3 hs3
+              obtain ⟨q1, q2, q3, q4, q5, q6, q7, q8, q9, q10, q11, q12, q13⟩ := distribute_ok hs3
+              split at h
+              · cases h
+              · rename_i b4 hb4
+                cases h
+                have d4 := sendPos_ok hb4 (by decide)
+                have hleft : 0 ≤ a.coll - p.total := by have := hp.total_le; omega
+                rw [posPart_of_nonneg hleft] at d4
+                simp only at q2 q3 q10 q11 q12 q13
+                refine ⟨by simp only [q2, w1], by simp only [q3, w2], ?_, ?_, ?_, ?_, ?_⟩
+                · simp only; rw [d4, q11, d2, p1, w5 _ _ (by simp) (by simp)]; simp
+                · simp only; rw [d4, q12, d2, p1, w5 _ _ (by simp) (by simp)]; simp
+                · intro n hn
+                  constructor
+                  · simp only; rw [d4, q11, d2, p1, w5 _ _ (by simp) (by simp)]; simp [hn]
+                  · simp only; rw [d4, q12, d2, p1, w5 _ _ (by simp) (by simp)]; simp [hn]
+                · intro _
+                  refine ⟨rfl, ?_, ?_⟩
+                  · simp only; rw [d4, q11, d2, p1, w5 _ _ (by simp) (by simp)]; simp
+                  · simp only
+                    rw [d4, d4, d4, d4]
+                    simp only [reduceCtorEq, if_false, and_false]
+                    have e1 : b2.get .collector .debt = s.bank.get .collector .debt := by
+                      rw [d2, p1, w5 _ _ (by simp) (by simp)]; simp
+                    have e2 : b2.get .keeper .debt = s.bank.get .keeper .debt := by
+                      rw [d2, p1, w5 _ _ (by simp) (by simp)]; simp
+                    have e3 : b2.get .initiator .debt = s.bank.get .initiator .debt := by
+                      rw [d2, p1, w5 _ _ (by simp) (by simp)]; simp
+                    have e4 : b2.get .pool .debt = s.bank.get .pool .debt := by
+                      rw [d2, p1, w5 _ _ (by simp) (by simp)]; simp
+                    rw [e1, e2, e3, e4, w3, w4] at q10
+                    omega
+                · intro hf; rw [hcl] at hf; cases hf
+          · simp only [hcl, if_false, Bool.false_eq_true] at h
+            cases h
+            refine ⟨by simp only [w1], by simp only [w2], ?_, ?_, ?_, ?_, ?_⟩
+            · simp only; rw [d2, p1, w5 _ _ (by simp) (by simp)]; simp
+            · simp only; rw [d2, p1, w5 _ _ (by simp) (by simp)]; simp
+            · intro n hn
+              constructor
+              · simp only; rw [d2, p1, w5 _ _ (by simp) (by simp)]; simp [hn]
+              · simp only; rw [d2, p1, w5 _ _ (by simp) (by simp)]; simp [hn]
+            · intro hf; exact absurd hf hcl
+            · intro _; rfl
+/-! ### the posted price -/
+
+/-- two conversions at one posted price hand out at most one unit more than the exact quotient, provided the two
+half-even roundings together cost less than one unit: `d2·(r2 + 10^18) ≤ r2·10^18` -/
+theorem two_conv_bound (amt1 amt2 r1 d1 r2 d2 : Int) (h1 : 0 ≤ amt1) (h2 : 0 ≤ amt2) (hr1 : 0 ≤ r1) (hd1 : 0 < d1)
+    (hr2 : 0 < r2) (hd2 : 0 ≤ d2) (hs : d2 * (r2 + P) ≤ r2 * P) :
+    (convVal amt1 r1 d1 r2 d2 + convVal amt2 r1 d1 r2 d2 - 1) * (d1 * r2) ≤ (amt1 + amt2) * r1 * d2 := by
+  have u1 := convVal_upper amt1 r1 d1 r2 d2 h1 hr1 hd1 hr2 hd2
+  have u2 := convVal_upper amt2 r1 d1 r2 d2 h2 hr1 hd1 hr2 hd2
+  set c1 := convVal amt1 r1 d1 r2 d2
+  set c2 := convVal amt2 r1 d1 r2 d2
+  have hP : (0 : Int) < P := by simp [P]
+  have hs' : d1 * (d2 * (r2 + P)) ≤ d1 * (r2 * P) := Int.mul_le_mul_of_nonneg_left hs (Int.le_of_lt hd1)
+  have key : P * ((c1 + c2 - 1) * (d1 * r2)) ≤ P * ((amt1 + amt2) * r1 * d2) := by nlinarith
+  exact le_of_mul_le_mul_left key hP
+
+theorem plan_posted {e : Env} {a : Auc} {amt0 : Int} {dp : Dec} {p : Plan}
+    (h : plan e a amt0 dp = .ok p)
+    (hb : 0 ≤ a.bonus) (hdp : (0 : Int) ≤ dp) (hdD : 0 < e.decD) (hpr : (0 : Int) ≤ a.price) (hdC : 0 < e.decC)
+    (hs : e.decC * (a.price + P) ≤ a.price * P) (hnc : p.clipped = false) :
+    (p.total - 1) * (e.decD * a.price) ≤ (p.pay + a.bonus) * dp * e.decC := by
+  unfold plan at h
+  split at h
+  · cases h
+  · by_cases hfull : amt0 ≥ a.debt
+    · simp only [hfull, decide_true, if_true, true_or] at h
+      split at h
+      · rename_i c cB hc hcB
+        obtain ⟨ec, _, hr2⟩ := convC_ok hc
+        obtain ⟨ecB, _, _⟩ := convC_ok hcB
+        have hr2' : (a.price : Int) ≠ 0 := hr2
+        have hprpos : (0 : Int) < a.price := by omega
+        split at h
+        · split at h
+          · split at h
+            · cases h
+            · cases h; simp at hnc
+          · cases h
+        · split at h
+          · cases h
+          · rename_i hg
+            cases h
+            simp only
+            have hd0 : 0 ≤ a.debt := by omega
+            have := two_conv_bound a.debt a.bonus dp e.decD a.price e.decC hd0 hb hdp hdD hprpos (by omega) hs
+            rw [ec, ecB]; exact this
+      · cases h
+    · simp only [hfull, decide_false, if_false, false_or, Bool.false_eq_true] at h
+      split at h
+      · rename_i c cB hc hcB
+        obtain ⟨ec, _, hr2⟩ := convC_ok hc
+        have hr2' : (a.price : Int) ≠ 0 := hr2
+        have hprpos : (0 : Int) < a.price := by omega
+        split at h
+        · split at h
+          · split at h
+            · cases h
+            · cases h; simp at hnc
+          · cases h
+        · split at h
+          · split at h
+            · cases h
+            · split at h
+              · cases h
+              · split at h
+                · rename_i cS hcS
+                  split at h
+                  · cases h
+                  · rename_i hg
+                    cases h
+                    simp only
+                    have hamt : 0 ≤ amt0 := by omega
+                    have hratio : amt0.tdiv a.debt = 0 := Int.tdiv_eq_zero_of_lt hamt (by omega)
+                    have hshare : (if e.bonus0 * amt0.tdiv a.debt > a.bonus then a.bonus else e.bonus0 * amt0.tdiv a.debt) = 0 := by
+                      rw [hratio]; simp; omega
+                    obtain ⟨ecS, _, _⟩ := convC_ok hcS
+                    rw [hshare, convVal_zero] at ecS
+                    have := two_conv_bound amt0 0 dp e.decD a.price e.decC hamt (le_refl 0) hdp hdD hprpos (by omega) hs
+                    rw [convVal_zero] at this
+                    rw [ec, ecS]
+                    have hnn : 0 ≤ a.bonus * dp * e.decC := by positivity
+                    have e1 : (amt0 + a.bonus) * dp * e.decC = (amt0 + 0) * dp * e.decC + a.bonus * dp * e.decC := by ring
+                    rw [e1]; omega
+                · cases h
+          · cases h
+      · cases h
+
+/-- collateral exhausted: the bidder receives everything that is left, which is strictly less than what the amount he
+asked to pay (clipped to the remaining target) plus the bonus buys at the posted price -/
+theorem plan_clipped_bound {e : Env} {a : Auc} {amt0 : Int} {dp : Dec} {p : Plan}
+    (h : plan e a amt0 dp = .ok p) (ha0 : 0 ≤ amt0) (hd0 : 0 ≤ a.debt)
+    (hb : 0 ≤ a.bonus) (hdp : (0 : Int) ≤ dp) (hdD : 0 < e.decD) (hpr : (0 : Int) ≤ a.price) (hdC : 0 < e.decC)
+    (hs : e.decC * (a.price + P) ≤ a.price * P) (hc : p.clipped = true) :
+    p.total = a.coll ∧ p.total * (e.decD * a.price) ≤ ((if amt0 ≥ a.debt then a.debt else amt0) + a.bonus) * dp * e.decC := by
+  unfold plan at h
+  split at h
+  · cases h
+  · by_cases hfull : amt0 ≥ a.debt
+    · simp only [hfull, decide_true, if_true, true_or] at h ⊢
+      split at h
+      · rename_i c cB hcc hcB
+        obtain ⟨ec, _, hr2⟩ := convC_ok hcc
+        obtain ⟨ecB, _, _⟩ := convC_ok hcB
+        have hr2' : (a.price : Int) ≠ 0 := hr2
+        have hprpos : (0 : Int) < a.price := by omega
+        have hb2 := two_conv_bound a.debt a.bonus dp e.decD a.price e.decC hd0 hb hdp hdD hprpos (by omega) hs
+        rw [← ec, ← ecB] at hb2
+        have hpos : 0 ≤ e.decD * a.price := by positivity
+        split at h
+        · rename_i hnle
+          split at h
+          · split at h
+            · cases h
+            · cases h
+              refine ⟨rfl, ?_⟩
+              simp only
+              have : a.coll ≤ c + cB - 1 := by omega
+              exact Int.le_trans (Int.mul_le_mul_of_nonneg_right this hpos) hb2
+          · cases h
+        · split at h
+          · cases h
+          · cases h; simp at hc
+      · cases h
+    · simp only [hfull, decide_false, if_false, false_or, Bool.false_eq_true] at h ⊢
+      split at h
+      · rename_i c cB hcc hcB
+        obtain ⟨ec, _, hr2⟩ := convC_ok hcc
+        obtain ⟨ecB, _, _⟩ := convC_ok hcB
+        have hr2' : (a.price : Int) ≠ 0 := hr2
+        have hprpos : (0 : Int) < a.price := by omega
+        have hb2 := two_conv_bound amt0 a.bonus dp e.decD a.price e.decC ha0 hb hdp hdD hprpos (by omega) hs
+        rw [← ec, ← ecB] at hb2
+        have hpos : 0 ≤ e.decD * a.price := by positivity
+        split at h
+        · rename_i hnle
+          split at h
+          · split at h
+            · cases h
+            · cases h
+              refine ⟨rfl, ?_⟩
+              simp only
+              have : a.coll ≤ c + cB - 1 := by omega
+              exact Int.le_trans (Int.mul_le_mul_of_nonneg_right this hpos) hb2
+          · cases h
+        · split at h
+          · split at h
+            · cases h
+            · split at h
+              · cases h
+              · split at h
+                · split at h
+                  · cases h
+                  · cases h; simp at hc
+                · cases h
+          · cases h
+      · cases h
 end Comdex.DutchV2
